@@ -428,6 +428,15 @@ inductive Field
   the members in strictly increasing order (by code point); the class writes them in hash order, so documents are
   compared up to the order of these siblings (the harness sorts them). -/
   | strSet (h : Head)
+  /-- XEP-0004 `<field/>` content whose reading and writing DEPEND on an enumerated attribute (the field type):
+  the attribute `attr` (index into `names`, unknown / absent ⇒ `dflt`, always written), the value children `vh` and the
+  repeated option records `oh` / `ofs`.  `kinds[i]` says how type `i` treats its value children: 0 = the first one is the
+  value, a `QString` that may be null (no child) — written when non-null (`dropsEmpty`: today's code writes it only when
+  non-EMPTY, so an empty non-null value comes back null; not well-formed); 1 = boolean, the first one ∈ {"1","true"},
+  always written as "1"/"0"; 2 = all of them, in order.  Options are read and written only for the types in `optFor`.
+  Value: `.record [.nat type, V, .list options]`, V = `.absent | .str s` / `.flag b` / `.list [.str …]`. -/
+  | formValue (attr : Str) (names : List Str) (dflt : Nat) (vh : Head) (kinds : List Nat) (dropsEmpty : Bool)
+      (oh : Head) (ofs : List Field) (optFor : List Nat)
   deriving Repr
 
 /-- `<tag>text</tag>` child (`writeXmlTextElement` / `writeOptionalXmlTextElement`) -/
@@ -459,6 +468,41 @@ def Val.isStr : Val → Bool
 def Val.recVals : Val → List Val
   | .record vs => vs
   | _ => []
+
+/-- `enumFromString(…).value_or(names[dflt])` as an index -/
+def enumIdxD (s : Str) (names : List Str) (dflt : Nat) : Nat :=
+  match idxOf s names with
+  | some i => i
+  | none => dflt
+
+/-- the parts of a `formValue` value -/
+def Val.formParts : Val → Option (Nat × Val × List Val)
+  | .record [.nat i, v, .list os] => some (i, v, os)
+  | _ => none
+
+def boolTrues : List Str := ["1".toList, "true".toList]
+
+/-- value children written for a type of kind `k` -/
+def formValueKids (vh : Head) (k : Nat) (dropsEmpty : Bool) : Val → List Node
+  | .str s => if k == 1 || k == 2 then [] else (if dropsEmpty && s.isEmpty then [] else [vh.mk' [] (textNode s)])
+  | .flag b => if k == 1 then [vh.mk' [] (textNode (if b then "1".toList else "0".toList))] else []
+  | .list items => if k == 2 then items.map fun it => vh.mk' [] (textNode it.getStr) else []
+  | _ => []
+
+/-- value read from the texts of the value children for a type of kind `k` -/
+def formValueOf (k : Nat) (ts : List Str) : Val :=
+  if k == 1 then .flag (boolTrues.contains (ts.headD []))
+  else if k == 2 then .list (ts.map Val.str)
+  else match ts with
+    | [] => .absent
+    | t :: _ => .str t
+
+def formValueCanon (k : Nat) : Val → Bool
+  | .absent => k != 1 && k != 2
+  | .str _ => k != 1 && k != 2
+  | .flag _ => k == 1
+  | .list items => k == 2 && items.all Val.isStr
+  | _ => false
 
 /-! ## encode -/
 
@@ -493,6 +537,12 @@ mutual
       match v with
       | .list items => ([], items.map fun it => h.mk' [] (textNode it.getStr))
       | _ => ([], [])
+    | .formValue a names _ vh kinds de oh ofs optFor, v =>
+      match v.formParts with
+      | some (i, w, os) =>
+        ([(a, nth names i)], formValueKids vh (kinds.getD i 0) de w ++
+          (if optFor.contains i then os.map fun it => let r := encFs ofs it.recVals; oh.mk' r.1 r.2 else []))
+      | none => ([], [])
   def encFs : List Field → List Val → List (Str × Str) × List Node
     | [], _ => ([], [])
     | _ :: _, [] => ([], [])
@@ -542,6 +592,10 @@ mutual
     | .many h fs _ =>
       .list ((x.kids.filter (h.matches pns)).map fun k => .record (decFs (k.nsOf pns) k fs))
     | .strSet h => .list ((mkSet ((x.kids.filter (h.matches pns)).map deepText)).map Val.str)
+    | .formValue a names dflt vh kinds _ oh ofs optFor =>
+      let i := enumIdxD (attr x.attrs a) names dflt
+      .record [.nat i, formValueOf (kinds.getD i 0) ((x.kids.filter (vh.matches pns)).map deepText),
+        .list (if optFor.contains i then (x.kids.filter (oh.matches pns)).map fun k => .record (decFs (k.nsOf pns) k ofs) else [])]
   def decFs (pns : Str) (x : Node) : List Field → List Val
     | [] => []
     | f :: fs => decF pns x f :: decFs pns x fs
@@ -581,6 +635,15 @@ mutual
       match v with
       | .list items => items.all Val.isStr && sortedB (items.map Val.getStr)
       | _ => false
+    | .formValue _ names _ _ kinds _ _ ofs optFor, v =>
+      match v.formParts with
+      | some (i, w, os) =>
+        i < names.length && formValueCanon (kinds.getD i 0) w &&
+          (if optFor.contains i then os.all fun it => match it with
+            | .record vs => canonFs ofs vs
+            | _ => false
+           else os.isEmpty)
+      | none => false
   def canonFs : List Field → List Val → Bool
     | [], [] => true
     | f :: fs, v :: vs => canonF f v && canonFs fs vs
@@ -600,6 +663,7 @@ def Field.heads : Field → List (Str × Str)
   | .child h _ _ => [(h.tag, h.ns)]
   | .many h _ _ => [(h.tag, h.ns)]
   | .strSet h => [(h.tag, h.ns)]
+  | .formValue _ _ _ vh _ _ oh _ _ => [(vh.tag, vh.ns), (oh.tag, oh.ns)]
 
 def Field.emitsKids : Field → Bool
   | .attr .. => false
@@ -618,38 +682,42 @@ def Field.sees (pns : Str) : Field → Node → Bool
   | .child h _ _, k => h.matches pns k
   | .many h _ _, k => h.matches pns k
   | .strSet h, k => h.matches pns k
+  | .formValue _ _ _ vh _ _ oh _ _, k => vh.matches pns k || oh.matches pns k
 
 /-- the attribute names field `f` reads -/
 def Field.reads : Field → Str → Bool
   | .attr n _ _, k => n == k
   | .attrReadOnly n _, k => n == k
   | .attrRW r _ _ _, k => r == k
+  | .formValue a .., k => a == k
   | _, _ => false
 
 /-- the attribute names field `f` writes -/
 def Field.writes : Field → Str → Bool
   | .attr n _ _, k => n == k
   | .attrRW _ w _ _, k => w == k
+  | .formValue a .., k => a == k
   | _, _ => false
 
-/-- `indep f g`: nothing that `g` writes is visible to the way `f` reads -/
-def indep (f g : Field) : Bool :=
+/-- the one attribute name a field writes, if any -/
+def Field.wname : Field → Option Str
+  | .attr n _ _ => some n
+  | .attrRW _ w _ _ => some w
+  | .formValue a .. => some a
+  | _ => none
+
+/-- attributes: `g` writes nothing that `f` reads -/
+def indepA (f g : Field) : Bool :=
+  match g.wname with
+  | some w => !f.reads w
+  | none => true
+
+/-- child elements: nothing that `g` writes is visible to the way `f` reads -/
+def indepK (f g : Field) : Bool :=
   match f with
-  | .attr n _ _ =>
-    match g with
-    | .attr n' _ _ => n != n'
-    | .attrRW _ w _ _ => n != w
-    | _ => true
-  | .attrReadOnly n _ =>
-    match g with
-    | .attr n' _ _ => n != n'
-    | .attrRW _ w _ _ => n != w
-    | _ => true
-  | .attrRW r _ _ _ =>
-    match g with
-    | .attr n' _ _ => r != n'
-    | .attrRW _ w _ _ => r != w
-    | _ => true
+  | .attr .. => true
+  | .attrReadOnly .. => true
+  | .attrRW .. => true
   | .text _ => !g.emitsKids
   | .enumChild ns _ anyNs _ _ =>
     match g with
@@ -672,6 +740,14 @@ def indep (f g : Field) : Bool :=
     match g with
     | .text _ => true
     | _ => g.heads.all fun hd => !((h.anyTag || hd.1 == h.tag) && (h.anyNs || hd.2 == h.ns))
+  | .formValue _ _ _ vh _ _ oh _ _ =>
+    match g with
+    | .text _ => true
+    | _ => g.heads.all fun hd => !(((vh.anyTag || hd.1 == vh.tag) && (vh.anyNs || hd.2 == vh.ns))
+        || ((oh.anyTag || hd.1 == oh.tag) && (oh.anyNs || hd.2 == oh.ns)))
+
+/-- `indep f g`: nothing that `g` writes is visible to the way `f` reads -/
+def indep (f g : Field) : Bool := indepA f g && indepK f g
 
 /-- the child ends up in namespace `h.ns` when written inside an element of namespace `pns` -/
 def Head.ok (pns : Str) (h : Head) : Bool := h.decl || h.ns == pns
@@ -696,6 +772,7 @@ mutual
       | _ => quietFs fs
     | .many .. => true
     | .strSet _ => true
+    | .formValue .. => false
   def quietFs : List Field → Bool
     | [] => true
     | f :: fs => quietF f && quietFs fs
@@ -713,6 +790,11 @@ mutual
     | .child h fs mode => h.ok pns && h.extraOk fs && wfFs h.ns fs && (!mode.isGuard || quietFs fs)
     | .many h fs _ => h.ok pns && h.extraOk fs && wfFs h.ns fs
     | .strSet h => h.ok pns && h.extraOk []
+    | .formValue a names dflt vh _ de oh ofs _ =>
+      a != xmlnsKey && !names.contains [] && nodupB names && dflt < names.length && !de
+        && vh.ok pns && vh.extraOk [] && oh.ok pns && oh.extraOk ofs && wfFs oh.ns ofs
+        && !((vh.anyTag || oh.tag == vh.tag) && (vh.anyNs || oh.ns == vh.ns))
+        && !((oh.anyTag || vh.tag == oh.tag) && (oh.anyNs || vh.ns == oh.ns))
   def wfFs (pns : Str) : List Field → Bool
     | [] => true
     | f :: fs => wfF pns f && fs.all (fun g => indep f g && indep g f) && wfFs pns fs
